@@ -1,10 +1,10 @@
 ----------------------------- MODULE VerifyGen -----------------------------
 (* Generation config for Verify: every transition printed as JSON.         *)
 EXTENDS Verify, Json
-CoreRec  == [toc |-> toc, src |-> src, cache |-> cache, pf |-> pf, prohibit |-> prohibit, lastErr |-> lastErr,
+CoreRec  == [fscfg |-> fscfg, toc |-> toc, src |-> src, cache |-> cache, pf |-> pf, prohibit |-> prohibit, lastErr |-> lastErr,
              verify |-> verify, lr |-> lr, okArgs |-> okArgs, served |-> served, wk |-> wk, vt |-> vt, rd |-> rd,
              nalter |-> nalter, nverify |-> nverify]
-CoreRecP == [toc |-> toc', src |-> src', cache |-> cache', pf |-> pf', prohibit |-> prohibit', lastErr |-> lastErr',
+CoreRecP == [fscfg |-> fscfg', toc |-> toc', src |-> src', cache |-> cache', pf |-> pf', prohibit |-> prohibit', lastErr |-> lastErr',
              verify |-> verify', lr |-> lr', okArgs |-> okArgs', served |-> served', wk |-> wk', vt |-> vt', rd |-> rd',
              nalter |-> nalter', nverify |-> nverify']
 GenInit == Init /\ PrintT("VINIT " \o ToJson(CoreRec))
